@@ -141,20 +141,29 @@ impl From<&V9> for NetflowCommon {
                         dst_port: value_map
                             .get(&V9Field::L4DstPort)
                             .and_then(|v| v.try_into().ok()),
-                        protocol_number: value_map
-                            .get(&V9Field::Protocol)
-                            .and_then(|v| v.try_into().ok()),
+                        // The V9 decoder yields the protocol as `FieldValue::ProtocolType`
+                        // and the switched times as a millisecond `FieldValue::Duration`.
+                        protocol_number: value_map.get(&V9Field::Protocol).and_then(|v| {
+                            match v {
+                                FieldValue::ProtocolType(proto) => Some(u8::from(*proto)),
+                                _ => v.try_into().ok(),
+                            }
+                        }),
                         protocol_type: value_map.get(&V9Field::Protocol).and_then(|v| {
-                            v.try_into()
-                                .ok()
-                                .map(|proto: u8| ProtocolTypes::from(proto))
+                            match v {
+                                FieldValue::ProtocolType(proto) => Some(*proto),
+                                _ => v
+                                    .try_into()
+                                    .ok()
+                                    .map(|proto: u8| ProtocolTypes::from(proto)),
+                            }
                         }),
                         first_seen: value_map
                             .get(&V9Field::FirstSwitched)
-                            .and_then(|v| v.try_into().ok()),
+                            .and_then(sys_uptime_millis),
                         last_seen: value_map
                             .get(&V9Field::LastSwitched)
-                            .and_then(|v| v.try_into().ok()),
+                            .and_then(sys_uptime_millis),
                         src_mac: value_map
                             .get(&V9Field::InSrcMac)
                             .and_then(|v| v.try_into().ok()),
@@ -171,6 +180,14 @@ impl From<&V9> for NetflowCommon {
             timestamp: value.header.sys_up_time,
             flowsets,
         }
+    }
+}
+
+/// SysUptime fields are decoded as a millisecond `Duration`; plain numbers are kept as is.
+fn sys_uptime_millis(value: &FieldValue) -> Option<u32> {
+    match value {
+        FieldValue::Duration(d) => u32::try_from(d.as_millis()).ok(),
+        _ => value.try_into().ok(),
     }
 }
 
